@@ -173,3 +173,88 @@ func (p *Prog) IsModulePkg(pkg *types.Package) bool {
 	}
 	return false
 }
+
+// ConstGlobal: a package-level variable of the module that is given its value by its declaration and by nothing
+// else — no assignment, no ++/--, no range or short declaration target, and its address is never taken — anywhere
+// in the module (`var rendererType = reflect.TypeOf(...)`).  Such a variable stands for one value.
+func (p *Prog) ConstGlobal(v *types.Var) bool {
+	if v == nil || v.Pkg() == nil || v.Parent() != v.Pkg().Scope() || !p.IsModulePkg(v.Pkg()) {
+		return false
+	}
+	if p.constGlobals == nil {
+		written := map[*types.Var]bool{}
+		globalOf := func(info *types.Info, e ast.Expr) *types.Var {
+			switch e := Unparen(e).(type) {
+			case *ast.Ident:
+				if o, ok := ObjOf(info, e).(*types.Var); ok && o.Pkg() != nil && o.Parent() == o.Pkg().Scope() {
+					return o
+				}
+			case *ast.SelectorExpr:
+				if o, ok := info.Uses[e.Sel].(*types.Var); ok && o.Pkg() != nil && o.Parent() == o.Pkg().Scope() {
+					return o
+				}
+			}
+			return nil
+		}
+		for _, pk := range p.Pkgs {
+			info := pk.TypesInfo
+			for _, file := range pk.Syntax {
+				ast.Inspect(file, func(n ast.Node) bool {
+					switch s := n.(type) {
+					case *ast.AssignStmt:
+						for _, l := range s.Lhs {
+							if o := globalOf(info, l); o != nil {
+								written[o] = true
+							}
+						}
+					case *ast.IncDecStmt:
+						if o := globalOf(info, s.X); o != nil {
+							written[o] = true
+						}
+					case *ast.RangeStmt:
+						for _, l := range []ast.Expr{s.Key, s.Value} {
+							if l != nil {
+								if o := globalOf(info, l); o != nil {
+									written[o] = true
+								}
+							}
+						}
+					case *ast.UnaryExpr:
+						if s.Op == token.AND {
+							// &v, &v.f, &v[i]: the address of (part of) the variable escapes
+							e := Unparen(s.X)
+							for {
+								switch t := e.(type) {
+								case *ast.SelectorExpr:
+									if o := globalOf(info, t); o != nil {
+										written[o] = true
+									}
+									e = Unparen(t.X)
+									continue
+								case *ast.IndexExpr:
+									e = Unparen(t.X)
+									continue
+								}
+								break
+							}
+							if o := globalOf(info, e); o != nil {
+								written[o] = true
+							}
+						}
+					}
+					return true
+				})
+			}
+		}
+		p.constGlobals = map[*types.Var]bool{}
+		for _, pk := range p.Pkgs {
+			sc := pk.Types.Scope()
+			for _, name := range sc.Names() {
+				if o, ok := sc.Lookup(name).(*types.Var); ok && !written[o] {
+					p.constGlobals[o] = true
+				}
+			}
+		}
+	}
+	return p.constGlobals[v]
+}
